@@ -213,6 +213,12 @@ Idle(from, h) ==
   /\ starved' = <<starved[1] \/ LeftOut(0, {}), starved[2] \/ LeftOut(1, {})>>
   /\ UNCHANGED <<par, txs, conf, com, known, handed, bal>>
 
+\* several empty blocks of which the node is only told the last (no checkpoint in between)
+Jump(from, h) ==
+  /\ from = height + 1 /\ h >= from /\ height' = h /\ phase' = "op"
+  /\ starved' = <<starved[1] \/ LeftOut(0, {}), starved[2] \/ LeftOut(1, {})>>
+  /\ UNCHANGED <<par, txs, conf, com, known, handed, bal>>
+
 Preimage(n, hash) ==
   /\ known' = [known EXCEPT ![n + 1] = @ \cup {hash}] /\ phase' = "op"
   /\ UNCHANGED <<par, height, txs, conf, com, handed, bal, starved>>
